@@ -811,6 +811,14 @@ func (g *semGen) literalOK(t *TypeRef, seen map[*Struct]bool) bool {
 	return false
 }
 
+// elemOK: container elements of type t may be written in the value being drawn.
+func (g *semGen) elemOK(t *TypeRef) bool {
+	if !g.canHaveLiteral(t) || g.mentionsStructAtOrAbove(t, g.structLimit, 0) {
+		return false
+	}
+	return g.structLimit == math.MaxInt32 || g.literalUnder(t, g.structLimit, map[*Struct]bool{})
+}
+
 // literalUnder: a literal of type t exists that mentions only structs ranked
 // below limit (required fields and union members included, transitively).
 func (g *semGen) literalUnder(t *TypeRef, limit int, seen map[*Struct]bool) bool {
@@ -913,7 +921,8 @@ func pureType(t *TypeRef) bool {
 func cycleSafe(s *Struct) bool {
 	if s.Kind == KUnion {
 		for _, f := range s.Fields {
-			if pureType(f.Type) {
+			// (binary is nameless but has no literal form)
+			if pureType(f.Type) && !(f.Type.Kind == TBase && f.Type.Base == BBinary) {
 				return true
 			}
 		}
@@ -1112,7 +1121,7 @@ func (g *semGen) constFor(f *File, t *TypeRef, maxConstRank int, depth int) *Con
 	case TList:
 		c := &Const{Kind: CList}
 		n := 0
-		if depth > 0 && g.canHaveLiteral(rt.Elem) && !g.mentionsStructAtOrAbove(rt.Elem, g.structLimit, 0) {
+		if depth > 0 && g.elemOK(rt.Elem) {
 			n = r.Intn(4)
 		}
 		for i := 0; i < n; i++ {
@@ -1122,7 +1131,7 @@ func (g *semGen) constFor(f *File, t *TypeRef, maxConstRank int, depth int) *Con
 	case TSet:
 		c := &Const{Kind: CList}
 		n := 0
-		if depth > 0 && g.canHaveLiteral(rt.Elem) && !g.mentionsStructAtOrAbove(rt.Elem, g.structLimit, 0) {
+		if depth > 0 && g.elemOK(rt.Elem) {
 			n = r.Intn(4)
 		}
 		seen := map[string]bool{}
@@ -1139,7 +1148,7 @@ func (g *semGen) constFor(f *File, t *TypeRef, maxConstRank int, depth int) *Con
 	case TMap:
 		c := &Const{Kind: CMap}
 		n := 0
-		if depth > 0 && g.canHaveLiteral(rt.Key) && g.canHaveLiteral(rt.Elem) && !g.mentionsStructAtOrAbove(rt.Key, g.structLimit, 0) && !g.mentionsStructAtOrAbove(rt.Elem, g.structLimit, 0) {
+		if depth > 0 && g.elemOK(rt.Key) && g.elemOK(rt.Elem) {
 			n = r.Intn(4)
 		}
 		seen := map[string]bool{}
@@ -1195,7 +1204,9 @@ func (g *semGen) constFor(f *File, t *TypeRef, maxConstRank int, depth int) *Con
 					}
 				}
 				if len(ok) == 0 && g.pureOnly {
-					// a union reached through a required field: take any member
+					// A union reached through a required field of a struct that does
+					// not reach the owner (the ones that do were vetted by cycleSafe):
+					// take any member.
 					for _, fl := range d.Fields {
 						if g.canHaveLiteral(fl.Type) && (g.structLimit == math.MaxInt32 || g.literalUnder(fl.Type, g.structLimit, map[*Struct]bool{})) {
 							ok = append(ok, fl)
